@@ -862,9 +862,38 @@ func extraDiff(fp *FuncPlan, byRole map[string]reflect.Value, before map[string]
 			diffs = append(diffs, role+": hook received an argument the function does not have")
 			continue
 		}
-		diffs = append(diffs, diffKeys(b.Sub(role, "X"), g)...)
+		exp := b.Sub(role, "X")
+		if rv, ok := byRole[role]; ok && rv.IsValid() && rv.Kind() == reflect.Interface {
+			exp = unboxRoot(exp, "X")
+		}
+		diffs = append(diffs, diffKeys(exp, g)...)
 	}
 	return diffs
+}
+
+// unboxRoot drops the interface layer at the root of a dump: a hook argument reaches the trace
+// through an interface{} parameter, which keeps the dynamic value of an interface-typed
+// operand (error, any) but not its static interface type.
+func unboxRoot(d Dump, root string) Dump {
+	v, ok := d[root]
+	if ok && v == "nil" && len(d) == 1 {
+		// a nil interface operand arrives as an untyped nil
+		return Dump{root: "<invalid>"}
+	}
+	if !ok || !strings.HasPrefix(v, "iface(") {
+		return d
+	}
+	out := Dump{}
+	for k, val := range d {
+		switch {
+		case k == root:
+		case strings.HasPrefix(k, root+"~"):
+			out[root+k[len(root)+1:]] = val
+		default:
+			out[k] = val
+		}
+	}
+	return out
 }
 
 // relaxFresh replaces identities allocated after the inputs were dumped (i.e. by callbacks the
